@@ -58,6 +58,28 @@ HARNESSES = {
     "u04_cursor_from_str_total_t": {"crate": "automerge", "file": CURSOR, "fn": "Cursor::from_str", "mode": "bounded", "bound": "all UTF-8 strings of <= 4 bytes", "tier": "thorough", "timeout_s": 3600},
     "u04_cursor_bytes_total_q": {"crate": "automerge", "file": CURSOR, "fn": "Cursor::try_from(&[u8]), parse_0", "mode": "bounded", "bound": "all inputs of <= 5 bytes", "timeout_s": 900},
     "u04_cursor_bytes_total_t": {"crate": "automerge", "file": CURSOR, "fn": "Cursor::try_from(&[u8]), parse_0", "mode": "bounded", "bound": "all inputs of <= 12 bytes", "tier": "thorough", "timeout_s": 3600},
+    # ---- U05 sync codecs
+    "u05_flags_roundtrip": {"crate": "automerge", "file": "rust/automerge/src/sync.rs", "fn": "MessageFlags::encode, MessageFlags::parse_bytes", "mode": "complete", "bound": "all 7-bit flag values (loops bounded by the 3-byte section)"},
+    "u05_flags_set_contains": {"crate": "automerge", "file": "rust/automerge/src/sync.rs", "fn": "MessageFlags::set, MessageFlags::contains, MessageFlags::new", "mode": "complete", "bound": "all u8 x single-bit flags (loop-free)"},
+    "u05_flags_parse_bytes": {"crate": "automerge", "file": "rust/automerge/src/sync.rs", "fn": "MessageFlags::parse_bytes", "mode": "bounded", "bound": "all flag sections of <= 3 bytes"},
+    "u05_set_read_only_transitions": {"crate": "automerge", "file": "rust/automerge/src/sync/state.rs", "fn": "State::set_read_only", "mode": "bounded", "bound": "all flag combinations; container fields empty or one capability"},
+    # ---- U06 hexane
+    "u06_leb_unsigned_roundtrip": {"crate": "hexane", "file": "rust/hexane/src/codec.rs", "fn": "Leb128::encode_unsigned, read_unsigned, try_read_unsigned, unsigned_len, unsigned_size, ulebsize, VarBuf::push, VarBuf::as_bytes", "mode": "complete", "bound": "all u64 (loops bounded by the 10-byte width, unwind 12 with unwinding assertions)"},
+    "u06_leb_signed_roundtrip": {"crate": "hexane", "file": "rust/hexane/src/codec.rs", "fn": "Leb128::encode_signed, read_signed, try_read_signed, signed_len, signed_size, lebsize", "mode": "complete", "bound": "all i64 (loops bounded by the 10-byte width)"},
+    "u06_int_unpack_total": {"crate": "hexane", "file": "rust/hexane/src/lib.rs", "fn": "<u64 as RleValue>::try_unpack/value_len, <i64 as RleValue>::try_unpack/value_len", "mode": "complete", "bound": "all inputs of <= 11 bytes (one byte more than the longest encoding)"},
+    "u06_narrow_unpack_total": {"crate": "hexane", "file": "rust/hexane/src/lib.rs", "fn": "<u32|usize|NonZeroU32 as RleValue>::try_unpack", "mode": "bounded", "bound": "all inputs of <= 6 bytes"},
+    "u06_string_unpack_q": {"crate": "hexane", "file": "rust/hexane/src/lib.rs", "fn": "<String as RleValue>::try_unpack/unpack/value_len, <Vec<u8> as RleValue>::try_unpack/value_len", "mode": "bounded", "bound": "all inputs of <= 4 bytes", "timeout_s": 1200},
+    "u06_string_unpack_t": {"crate": "hexane", "file": "rust/hexane/src/lib.rs", "fn": "<String as RleValue>::try_unpack/unpack/value_len", "mode": "bounded", "bound": "all inputs of <= 6 bytes", "tier": "thorough", "timeout_s": 3600},
+    "u06_string_unpack_huge_len": {"crate": "hexane", "file": "rust/hexane/src/lib.rs", "fn": "<String|Vec<u8> as RleValue>::try_unpack/value_len", "mode": "bounded", "bound": "every length prefix > 16 (all u64) in front of a 12-byte buffer", "timeout_s": 1200},
+    "u06_rle_segment_total_u64": {"crate": "hexane", "file": "rust/hexane/src/rle/decoder.rs", "fn": "RleDecoder::try_next_segment", "mode": "bounded", "bound": "all buffers of <= 11 bytes, one step", "timeout_s": 1200},
+    "u06_rle_segment_total_i64": {"crate": "hexane", "file": "rust/hexane/src/rle/decoder.rs", "fn": "RleDecoder::try_next_segment", "mode": "bounded", "bound": "all 11-byte buffers, two steps (covers the i64::MIN run header)", "timeout_s": 1200},
+    "u06_rle_segment_utf8": {"crate": "hexane", "file": "rust/hexane/src/rle/decoder.rs", "fn": "RleDecoder::<String>::try_next_segment", "mode": "bounded", "bound": "all 5-byte buffers, one step", "timeout_s": 1200},
+    # ---- U07 autoserde
+    "u07_map_announces_true_length": {"crate": "automerge", "file": "rust/automerge/src/autoserde.rs", "fn": "AutoSerdeMap::serialize", "mode": "bounded", "bound": "trait-contract instance: nested empty map inside a root of arbitrary length"},
+    "u07_root_map_announces_its_length": {"crate": "automerge", "file": "rust/automerge/src/autoserde.rs", "fn": "AutoSerdeMap::serialize", "mode": "bounded", "bound": "trait-contract instance: empty root"},
+    # ---- U08 text width
+    "u08_width_laws_q": {"crate": "automerge", "file": TYPES, "fn": "TextEncoding::width", "mode": "bounded", "bound": "all valid UTF-8 strings of <= 3 bytes", "timeout_s": 1500},
+    "u08_width_laws_t": {"crate": "automerge", "file": TYPES, "fn": "TextEncoding::width", "mode": "bounded", "bound": "all valid UTF-8 strings of <= 4 bytes (every scalar value)", "tier": "thorough", "timeout_s": 3600},
     "u01_roundtrip_3": {"crate": "automerge", "file": BLOOM, "fn": "to_bytes, parse", "mode": "bounded", "bound": "3 entries (4 bytes of bits)", "tier": "thorough"},
 }
 
@@ -158,6 +180,83 @@ PROPERTIES.update({
     },
 })
 
+PROPERTIES.update({
+    "C15": {
+        "level": "proof",
+        "verus": [("u02_parse", "*"), ("u01_bloom", ["get_probes", "contains_hash", "add_hash", "set_bit"]), ("u04_ids", ["exid_to_opid", "op_cursor_to_opid", "new"])],
+        "kani": ["u01_parse_wf_quick", "u01_parse_wf_thorough", "u01_query_total", "u03_header_parse_q", "u03_header_parse_t", "u03_chunktype_codes",
+                 "u04_exid_try_from_total_q", "u04_exid_try_from_total_t", "u04_cursor_from_str_total_q", "u04_cursor_from_str_total_t",
+                 "u04_cursor_bytes_total_q", "u04_cursor_bytes_total_t", "u05_flags_parse_bytes",
+                 "u06_int_unpack_total", "u06_narrow_unpack_total", "u06_string_unpack_q", "u06_string_unpack_t", "u06_string_unpack_huge_len",
+                 "u06_rle_segment_total_u64", "u06_rle_segment_total_i64", "u06_rle_segment_utf8"],
+        "not_under_contract": ["Automerge::load / load_incremental / rescue", "Change::from_bytes and the change/document/bundle column decoders", "sync::Message::decode with changes, State::decode",
+                               "ActorId / ChangeHash hex parsing", "import / import_obj (str code; a panic there, D9, was repaired but is not decided by this check)",
+                               "parse combinators map/tuple2/apply_n/length_prefixed/range_of (generic FnMut parsers)", "hexane Column::load, slabs, delta/bool/raw decoders"],
+        "assumptions": ["input slices shorter than usize::MAX", "Bloom bit arrays < 2^28 bytes"],
+        "explanation": "Panic-freedom and termination of the LEAF decoders only: Verus proves for inputs of any length that the parse.rs/leb128.rs functions, the Bloom query path and the id/cursor "
+                       "resolution never panic, overflow or index out of range; Kani proves totality of BloomFilter::parse, Header::parse, ExId/Cursor byte and string decoders, MessageFlags::parse_bytes, "
+                       "the hexane varint/value decoders and one RLE segment step within the stated input-length bounds.",
+    },
+    "C17": {
+        "level": "proof",
+        "verus": [("u02_parse", ["take_n", "take_1", "take_4", "take1", "take4", "rest", "take_rest", "leb128_u64", "leb128_i64", "leb128_u32", "nonzero_leb128_u64", "change_hash", "utf_8"]),
+                  ("u01_bloom", ["get_probes", "contains_hash", "add_hash"])],
+        "kani": ["u01_parse_wf_quick", "u01_parse_wf_thorough", "u01_bits_capacity_total", "u06_string_unpack_huge_len"],
+        "not_under_contract": ["ChangeCollector / OpEncoderStrategy::try_new (OutOfMemory guard)", "document reconstruct", "parse::length_prefixed(g) / apply_n with generic g (allocation sized by the wire count)",
+                               "RawColumns::parse", "sync message processing"],
+        "assumptions": ["resource use is expressed as bounds on the values that size allocations and loops; wall-clock and heap are not measured"],
+        "explanation": "No length/count field decoded by the functions under contract reaches an allocation size or loop bound unchecked: take_n and friends return sub-slices of the input (nothing allocated, "
+                       "Ok only if the bytes are there); LEB128 decoding consumes at most 10 bytes; a Bloom query allocates and iterates at most PROBE_LIMIT (1024) probes for every filter satisfying the "
+                       "invariant wf, which BloomFilter::parse establishes for every input (Kani, bounded input length; the probe-count check itself is length independent).",
+    },
+    "C19": {
+        "level": "proof",
+        "verus": [("u04_ids", ["exid_to_opid", "op_cursor_to_opid", "get_actor_safe", "new"]),
+                  ("u02_parse", ["leb128_u64", "leb128_u32", "take_n", "take1", "take_1", "lemma_decode_of_encode", "lemma_shape_is_canonical", "lemma_leb_shape", "lemma_leb_value", "lemma_leb_len_u64", "lemma_shape_unique", "lemma_valk_shift", "lemma_valk_prefix"])],
+        "kani": ["u03_leb128_writer_matches_parser", "u05_flags_roundtrip", "u05_flags_set_contains", "u05_flags_parse_bytes", "u01_roundtrip_1", "u01_roundtrip_3",
+                 "u04_exid_try_from_total_q", "u04_cursor_bytes_total_q", "u06_leb_unsigned_roundtrip", "u06_leb_signed_roundtrip"],
+        "not_under_contract": ["ExId::to_bytes / try_from and Cursor::to_bytes / try_from / Display as whole functions (closure-based error mapping; K round trips exhaust CBMC)", "sync::Message::encode/decode, State::encode/decode",
+                               "ActorId / ChangeHash hex round trips", "OpSet::lookup_actor (assumed binary search)"],
+        "explanation": "Resolution: Verus proves exid_to_opid / op_cursor_to_opid return the id's OWN actor under any actor numbering. Encodings: the LEB128 layer every id/cursor/sync codec is built on is proved "
+                       "lossless for all u64 and inputs of any length (leb128_u64 accepts exactly the canonical encodings, returns their value; lemma_decode_of_encode: decode(leb(v) ++ rest) = v), the leb128 crate writer "
+                       "is checked against the parser for all u64 (Kani), MessageFlags round-trip for all values, hexane varints for all u64/i64. The composite ExId/Cursor/Message/State codecs are NOT under contract.",
+    },
+    "C24": {
+        "level": "other",
+        "verus": [],
+        "kani": ["u08_width_laws_q", "u08_width_laws_t"],
+        "not_under_contract": ["text index maintenance through edits (op_set.rs)", "grapheme-cluster widths (unicode-segmentation tables)", "spans / marks / cursors index arithmetic", "strings longer than the bound"],
+        "explanation": "BOUNDED ONLY, not a proof: Kani checks the laws of TextEncoding::width (UTF-8 width = byte length, code points <= UTF-16 units <= bytes, UTF-16 <= 2 x code points, one scalar value is "
+                       "1 or 2 UTF-16 units) on ALL valid UTF-8 strings up to 3 bytes (quick) / 4 bytes (thorough). No contract within reach expresses index consistency through edits.",
+    },
+    "C32": {
+        "level": "proof",
+        "verus": [],
+        "kani": ["u07_map_announces_true_length", "u07_root_map_announces_its_length"],
+        "not_under_contract": ["AutoSerdeSeq / AutoSerdeVal", "ReadDoc::get/keys/length/text of a real document (winners only, text as strings)", "maps with >= 1 entry (Keys cannot be built outside a document)"],
+        "explanation": "AutoSerdeMap::serialize is verified against the ReadDoc / Serializer TRAIT CONTRACTS with a harness-local ReadDoc of arbitrary reported lengths and a recording Serializer: the announced map "
+                       "length equals the number of entries written and doc.length(the map being serialized). Complete for the explored contract instance (empty map nested in a root of any length).",
+    },
+    "C35": {
+        "level": "proof",
+        "verus": [],
+        "kani": ["u06_leb_unsigned_roundtrip", "u06_leb_signed_roundtrip", "u06_int_unpack_total", "u06_narrow_unpack_total", "u06_string_unpack_q", "u06_string_unpack_t",
+                 "u06_string_unpack_huge_len", "u06_rle_segment_total_u64", "u06_rle_segment_total_i64", "u06_rle_segment_utf8"],
+        "not_under_contract": ["Column::load / load_with / save / save_to", "slabs, B-tree index, splice, RLE loader (rle/load.rs), bool and delta encodings, encoder.rs", "value pack() into Vec"],
+        "explanation": "Kani proves on the real hexane crate: the varint codec round-trips for ALL u64 and i64 with the exact encoded length (complete); integer value decoders are total on every input up to 11 bytes "
+                       "(complete for their 10-byte maximum width); string/bytes decoders and one RLE segment step are total within stated buffer bounds. Column-level save/load is not under contract.",
+    },
+    "C39": {
+        "level": "proof",
+        "verus": [("u02_parse", ["utf_8", "take_n"])],
+        "kani": ["u06_string_unpack_q", "u06_string_unpack_t", "u06_rle_segment_utf8"],
+        "not_under_contract": ["the global invariant 'every unchecked unpack is dominated by a checked pass over the same bytes' (hexane columns, bundles)", "BundleStorage::verify", "Column::load validation walk", "change_graph / columns.rs string reads"],
+        "trusted": ["std::str::from_utf8 / String::from_utf8 validators (uninterpreted `valid_utf8` in the Verus unit)"],
+        "explanation": "Verus proves parse::utf_8 only ever builds a String from bytes the std validator accepted (any length); Kani proves the checked hexane decoder String::try_unpack yields only valid UTF-8 inside "
+                       "the buffer and that on every buffer it accepts the UNCHECKED String::unpack (from_utf8_unchecked) returns the same slice -- the soundness condition of the unsafe fast path -- for all buffers within the bound.",
+    },
+})
+
 DOC = "no whole-document verification is within reach: Kani ICEs on any harness that builds an Automerge document and Verus cannot take the op-set engine (iterator adapters, closures, hexane columns); "
 NOT_APPLICABLE = {
     "C01": DOC + "convergence relates whole documents over all delivery orders",
@@ -189,6 +288,6 @@ NOT_APPLICABLE = {
 
 # planned claims whose units are not built yet: listed as not applicable until their check exists
 _PENDING = "planned at contract level (DESIGN.md section 6) but the check is not built yet, so it is not claimed"
-for _p in ["C04", "C10", "C13", "C14", "C15", "C17", "C19", "C24", "C30", "C32", "C35", "C37", "C38", "C39"]:
+for _p in []:
     if _p not in PROPERTIES:
         NOT_APPLICABLE[_p] = _PENDING
